@@ -12,6 +12,8 @@ hooks = [l.split()[0] for l in hook_commits if "verif hook" in l]
 BASE = ("for m in $(cat /w/out/gomods.txt); do MF=$(cd /repo/$m && . /w/out/goenv.sh && gomodflag); "
         "(cd /repo/$m && go test $MF -json -vet=off -count=1 -timeout 25m ./...); done")
 
+ENABLED = [l.strip() for l in open(os.path.join(ROOT, "cfg", "ENABLED")) if l.strip()]
+CHECKS = {k: v for k, v in CHECKS.items() if k in ENABLED}
 checks = []
 for pid in sorted(CHECKS):
     c = CHECKS[pid]
